@@ -5,6 +5,8 @@ validation-cache invariant of C05 *through evictions*: every operation (look-up 
 insert with flip/flop rotation and group eviction, pruning) only ever keeps old members or adds the one
 key being inserted.
 -/
+set_option linter.unusedSectionVars false
+set_option linter.unusedSimpArgs false
 namespace F3.Cache
 
 variable {κ : Type}
@@ -178,5 +180,139 @@ theorem mem_of_peek {c : GroupedSet κ} {g : Nat} {k : κ} (h : c.peek g k = tru
   · rename_i s hs
     exact ⟨s, lookup_mem hs, h⟩
   · cases h
+
+/-! ### capacity -/
+
+/-- Size invariant of a flip/flop set: the young generation is strictly below `maxSize`, the old one at most `maxSize`. -/
+def FlipFlop.bounded (s : FlipFlop κ) : Prop :=
+  1 ≤ s.maxSize ∧ s.flip.length < s.maxSize ∧ s.flop.length ≤ s.maxSize
+
+theorem FlipFlop.bounded_new (n : Nat) : (FlipFlop.new n : FlipFlop κ).bounded := by
+  unfold FlipFlop.new FlipFlop.bounded
+  simp only [List.length_nil]
+  omega
+
+theorem FlipFlop.bounded_containsOrAdd {s : FlipFlop κ} (h : s.bounded) (k : κ) :
+    (s.containsOrAdd k).2.bounded ∧ (s.containsOrAdd k).2.maxSize = s.maxSize := by
+  obtain ⟨h1, h2, h3⟩ := h
+  by_cases hc : s.contains k = true
+  · rw [FlipFlop.containsOrAdd_hit hc]; exact ⟨⟨h1, h2, h3⟩, rfl⟩
+  · by_cases hl : (k :: s.flip).length ≥ s.maxSize
+    · rw [FlipFlop.containsOrAdd_rotate hc hl]
+      simp only [List.length_cons] at hl
+      refine ⟨⟨h1, ?_, ?_⟩, rfl⟩
+      · show 0 < s.maxSize
+        omega
+      · show (k :: s.flip).length ≤ s.maxSize
+        simp only [List.length_cons]
+        omega
+    · rw [FlipFlop.containsOrAdd_keep hc hl]
+      simp only [List.length_cons] at hl
+      refine ⟨⟨h1, ?_, h3⟩, rfl⟩
+      show (k :: s.flip).length < s.maxSize
+      simp only [List.length_cons]
+      omega
+
+/-- Size invariant of the grouped cache: at most `max 1 maxGroups` groups, each a bounded set of the configured size. -/
+def GroupedSet.bounded (c : GroupedSet κ) : Prop :=
+  c.groups.length ≤ max 1 c.maxGroups ∧
+    ∀ p ∈ c.groups, p.2.bounded ∧ p.2.maxSize = max 1 c.maxSetSize
+
+theorem bounded_new (a b : Nat) : (GroupedSet.new a b : GroupedSet κ).bounded := by
+  unfold GroupedSet.new GroupedSet.bounded
+  simp
+
+omit [DecidableEq κ] in
+theorem filter_ne_length_lt {l : List (Nat × FlipFlop κ)} {g : Nat} {s : FlipFlop κ} (h : (g, s) ∈ l) :
+    (l.filter (fun p => p.1 ≠ g)).length < l.length := by
+  induction l with
+  | nil => simp at h
+  | cons x t ih =>
+    rcases List.mem_cons.mp h with h1 | h1
+    · subst h1
+      simp only [ne_eq, not_true_eq_false, decide_false, Bool.false_eq_true, not_false_eq_true,
+        List.filter_cons_of_neg, List.length_cons]
+      have := List.length_filter_le (fun p : Nat × FlipFlop κ => decide (¬ p.1 = g)) t
+      omega
+    · have := ih h1
+      by_cases hx : x.1 ≠ g
+      · simp only [ne_eq, hx, not_false_eq_true, decide_true, List.filter_cons_of_pos, List.length_cons]
+        simp only [ne_eq] at this
+        omega
+      · simp only [ne_eq, hx, decide_false, Bool.false_eq_true, not_false_eq_true, List.filter_cons_of_neg, List.length_cons]
+        simp only [ne_eq] at this
+        omega
+
+theorem bounded_contains {c : GroupedSet κ} (h : c.bounded) (g : Nat) (k : κ) :
+    (c.contains g k).2.bounded ∧ (c.contains g k).2.maxGroups = c.maxGroups ∧
+      (c.contains g k).2.maxSetSize = c.maxSetSize := by
+  unfold GroupedSet.contains
+  split
+  · rename_i s hs
+    have hm := lookup_mem hs
+    refine ⟨⟨?_, ?_⟩, rfl, rfl⟩
+    · simp only [List.length_cons]
+      have := filter_ne_length_lt hm
+      have := h.1
+      omega
+    · intro p hp
+      simp only [List.mem_cons] at hp
+      rcases hp with hp | hp
+      · subst hp; exact h.2 _ hm
+      · exact h.2 _ (List.mem_filter.mp hp).1
+  · exact ⟨h, rfl, rfl⟩
+
+omit [DecidableEq κ] in
+theorem length_replaceGroup (gs : List (Nat × FlipFlop κ)) (g : Nat) (s : FlipFlop κ) :
+    (replaceGroup gs g s).length = gs.length := by
+  induction gs with
+  | nil => rfl
+  | cons x t ih =>
+    obtain ⟨g', s'⟩ := x
+    unfold replaceGroup
+    split <;> simp [ih]
+
+theorem bounded_add {c : GroupedSet κ} (h : c.bounded) (g : Nat) (k : κ) :
+    (c.add g k).2.bounded ∧ (c.add g k).2.maxGroups = c.maxGroups ∧
+      (c.add g k).2.maxSetSize = c.maxSetSize := by
+  unfold GroupedSet.add
+  split
+  · rename_i s hs
+    have hm := lookup_mem hs
+    have hsb := h.2 _ hm
+    have hnew := FlipFlop.bounded_containsOrAdd hsb.1 k
+    refine ⟨⟨?_, ?_⟩, rfl, rfl⟩
+    · simp only [length_replaceGroup]; exact h.1
+    · intro p hp
+      rcases mem_replaceGroup hp with h1 | h1
+      · exact h.2 _ h1
+      · subst h1
+        exact ⟨hnew.1, hnew.2.trans hsb.2⟩
+  · have hnew := FlipFlop.bounded_containsOrAdd (FlipFlop.bounded_new (κ := κ) c.maxSetSize) k
+    refine ⟨⟨?_, ?_⟩, rfl, rfl⟩
+    · simp only [List.length_cons]
+      split
+      · rename_i hge
+        simp only [List.length_dropLast]
+        have := h.1
+        omega
+      · rename_i hlt
+        omega
+    · intro p hp
+      simp only [List.mem_cons] at hp
+      rcases hp with hp | hp
+      · subst hp
+        exact ⟨hnew.1, hnew.2⟩
+      · refine h.2 _ ?_
+        split at hp
+        · exact List.dropLast_subset _ hp
+        · exact hp
+
+theorem bounded_removeLessThan {c : GroupedSet κ} (h : c.bounded) (n : Nat) :
+    (c.removeLessThan n).bounded := by
+  unfold GroupedSet.removeLessThan GroupedSet.bounded
+  refine ⟨Nat.le_trans (List.length_filter_le _ _) h.1, ?_⟩
+  intro p hp
+  exact h.2 _ (List.mem_filter.mp hp).1
 
 end F3.Cache
